@@ -60,4 +60,66 @@ theorem fuel_enough (to iv : Nat) (hiv : 1 ≤ iv) : to + iv < (to / iv + 2) * i
 theorem effInterval_pos (i : Int) : 1 ≤ effInterval i := by
   unfold effInterval; split <;> omega
 
+
+/-- the poll that succeeds is the first poll that finds the gate free -/
+theorem loopH_acquired (D iv : Nat) (held : Nat → Bool) (fuel t x : Nat)
+    (h : loopH D iv held fuel t = .acquired x) :
+    held x = false ∧ ∃ n, x = t + n * iv ∧ ∀ j, j < n → held (t + j * iv) = true ∧ t + j * iv ≤ D := by
+  induction fuel generalizing t with
+  | zero => simp [loopH] at h
+  | succ fuel ih =>
+    simp only [loopH] at h
+    split at h
+    · rename_i hf
+      simp only [Outcome.acquired.injEq] at h
+      subst h
+      exact ⟨by simpa using hf, 0, by simp, fun j hj => absurd hj (Nat.not_lt_zero _)⟩
+    · rename_i hf
+      split at h
+      · cases h
+      · rename_i hd
+        obtain ⟨h1, n, hx, hall⟩ := ih _ h
+        refine ⟨h1, n + 1, by rw [hx, Nat.succ_mul]; omega, ?_⟩
+        intro j hj
+        cases j with
+        | zero => exact ⟨by simpa using hf, by omega⟩
+        | succ j' =>
+          have := hall j' (by omega)
+          have e : t + (j' + 1) * iv = t + iv + j' * iv := by rw [Nat.succ_mul]; omega
+          rw [e]; exact this
+
+theorem loopH_timedOut (D iv : Nat) (held : Nat → Bool) (fuel t x P : Nat)
+    (hP : P = fuel * iv) (hfuel : D + iv < t + P) (ht : t ≤ D + iv)
+    (h : loopH D iv held fuel t = .timedOut x) :
+    D < x ∧ held x = true ∧ x ≤ D + iv ∧
+    ∃ n, x = t + n * iv ∧ ∀ j, j ≤ n → held (t + j * iv) = true := by
+  induction fuel generalizing t P with
+  | zero => simp at hP; omega
+  | succ fuel ih =>
+    simp only [loopH] at h
+    split at h
+    · cases h
+    · rename_i hf
+      have hheld : held t = true := by simpa using hf
+      split at h
+      · rename_i hd
+        simp only [Outcome.timedOut.injEq] at h
+        subst h
+        refine ⟨hd, hheld, ht, 0, by simp, ?_⟩
+        intro j hj
+        have hj0 : j = 0 := by omega
+        subst hj0
+        simpa using hheld
+      · rename_i hd
+        have hmul : (fuel + 1) * iv = fuel * iv + iv := Nat.succ_mul _ _
+        obtain ⟨h1, h2, h3, n, hx, hall⟩ := ih (t + iv) (fuel * iv) rfl (by omega) (by omega) h
+        refine ⟨h1, h2, h3, n + 1, by rw [hx, Nat.succ_mul]; omega, ?_⟩
+        intro j hj
+        cases j with
+        | zero => simpa using hheld
+        | succ j' =>
+          have := hall j' (by omega)
+          have e : t + (j' + 1) * iv = t + iv + j' * iv := by rw [Nat.succ_mul]; omega
+          rw [e]; exact this
+
 end RqModel.CasRetry
